@@ -87,6 +87,7 @@ type codecCase struct {
 	Lines     []string               `json:"lines"`
 	Gs        []aGenome              `json:"gs"`
 	E         *aExp                  `json:"e"`
+	Other     *aExp                  `json:"other"`
 	Stream    []streamTok            `json:"stream"`
 	Ftable    []fsym                 `json:"ftable"`
 	Acts      []string               `json:"acts"`
@@ -519,12 +520,25 @@ func orgRoundTrip(g *genetics.Genome, fit float64, gen int, hf float64, pcc bool
 			vhu.Fstr(hf), gen+1, vhu.Fstr(back2.Fitness), back2.Generation, err)
 		return
 	}
+	var d []string
+	// ... also when the target is an organism already in use (another genome, its phenotype built)
+	_, _ = other.Phenotype()
+	if err := other.UnmarshalBinary(data); err != nil {
+		d = append(d, fmt.Sprintf("UnmarshalBinary into a used organism fails: %v", err))
+	} else {
+		uhf, upcc := other.VerifChampFields()
+		if !sameBits(other.Fitness, fit) || other.Generation != gen || !sameBits(uhf, hf) || upcc != pcc || other.Genotype == nil {
+			d = append(d, fmt.Sprintf("read into a used organism: fitness/generation/highestFitness/champion child (%s, %d, %s, %v), original (%s, %d, %s, %v)",
+				vhu.Fstr(other.Fitness), other.Generation, vhu.Fstr(uhf), upcc, vhu.Fstr(fit), gen, vhu.Fstr(hf), pcc))
+		} else if dg := diffGenomes(want, project(other.Genotype, false), true); len(dg) > 0 {
+			d = append(d, "read into a used organism: "+strings.Join(dg, "; "))
+		}
+	}
 	back := &genetics.Organism{}
 	if err := back.UnmarshalBinary(data); err != nil {
 		res.fail("codec/organism/read", "Organism.UnmarshalBinary rejects what MarshalBinary wrote: %v\n%s", err, data)
 		return
 	}
-	var d []string
 	if !sameBits(back.Fitness, fit) {
 		d = append(d, fmt.Sprintf("fitness %s, original %s", vhu.Fstr(back.Fitness), vhu.Fstr(fit)))
 	}
@@ -1020,16 +1034,65 @@ func expCase(c *codecCase, tb table, res *result) (interesting bool) {
 	}
 	data := buf.Bytes()
 	cmpGob(c.Stream, data, tb, res)
-	back := &experiment.Experiment{}
-	if err := back.Read(bytes.NewReader(data)); err != nil {
-		res.fail("codec/experiment/read", "Experiment.Read rejects what Experiment.Write wrote: %v", err)
-		return
+	// the file is read into (a) a fresh value, (b) a value that holds ANOTHER experiment with at least as many trials
+	// whose statistics were all computed (winner generations cached), (c) a value that holds the same experiment, used
+	// likewise: the restored experiment must depend on the file only
+	wo := observe(e)
+	solved, unsolved := false, false
+	targets := []struct {
+		name string
+		val  *experiment.Experiment
+	}{{"a fresh Experiment{}", &experiment.Experiment{}}}
+	if c.Other != nil {
+		o := buildExp(c.Other, tb)
+		_ = observe(o)
+		targets = append(targets, struct {
+			name string
+			val  *experiment.Experiment
+		}{"an Experiment value that held another experiment (statistics computed)", o})
 	}
-	var d []string
+	same := buildExp(c.E, tb)
+	_ = observe(same)
+	targets = append(targets, struct {
+		name string
+		val  *experiment.Experiment
+	}{"an Experiment value that held the same experiment (statistics computed)", same})
+	for _, tg := range targets {
+		back := tg.val
+		res.evals++
+		if err := back.Read(bytes.NewReader(data)); err != nil {
+			res.fail("codec/experiment/read", "Experiment.Read (into %s) rejects what Experiment.Write wrote: %v", tg.name, err)
+			return
+		}
+		d, sv, us := cmpExperiment(e, back, wo, res)
+		solved, unsolved = solved || sv, unsolved || us
+		if len(d) > 0 {
+			if len(d) > 5 {
+				d = d[:5]
+			}
+			sig := "codec/experiment/roundtrip"
+			if tg.val != targets[0].val {
+				sig = "codec/experiment/read-into-used"
+			}
+			res.fail(sig, "saved experiment read into %s does not restore: %s", tg.name, strings.Join(d, "; "))
+			return
+		}
+	}
+	return solved && unsolved
+}
+
+// cmpExperiment compares a restored experiment with the written one: every written field, the run-time state a read
+// must not inherit from the target (cached winner generation, trial duration), then every derived statistic.
+func cmpExperiment(e, back *experiment.Experiment, wo map[string]string, res *result) (d []string, solved, unsolved bool) {
+	for i := range back.Trials {
+		if back.Trials[i].WinnerGeneration != nil || back.Trials[i].Duration != 0 {
+			d = append(d, fmt.Sprintf("trial[%d] comes back with a winner generation / duration (%v, %v) that the file does not contain",
+				i, back.Trials[i].WinnerGeneration != nil, back.Trials[i].Duration))
+		}
+	}
 	if back.Id != e.Id || back.Name != e.Name || len(back.Trials) != len(e.Trials) {
 		d = append(d, fmt.Sprintf("experiment (id %d, name %q, %d trials), original (%d, %q, %d)", back.Id, back.Name, len(back.Trials), e.Id, e.Name, len(e.Trials)))
 	}
-	solved, unsolved := false, false
 	for i := 0; i < len(e.Trials) && i < len(back.Trials); i++ {
 		wt, gt := e.Trials[i], back.Trials[i]
 		if wt.Id != gt.Id || len(wt.Generations) != len(gt.Generations) {
@@ -1071,7 +1134,7 @@ func expCase(c *codecCase, tb table, res *result) (interesting bool) {
 	}
 	if len(d) == 0 {
 		// derived statistics before / after (NaN of an empty series equals NaN)
-		wo, bo := observe(e), observe(back)
+		bo := observe(back)
 		for _, k := range keysOfS(wo) {
 			if wo[k] != bo[k] {
 				d = append(d, fmt.Sprintf("statistic %s = %s, original %s", k, bo[k], wo[k]))
@@ -1079,13 +1142,7 @@ func expCase(c *codecCase, tb table, res *result) (interesting bool) {
 		}
 		res.evals += len(wo)
 	}
-	if len(d) > 0 {
-		if len(d) > 5 {
-			d = d[:5]
-		}
-		res.fail("codec/experiment/roundtrip", "saved experiment does not restore: %s", strings.Join(d, "; "))
-	}
-	return solved && unsolved
+	return d, solved, unsolved
 }
 
 func keysOfS(m map[string]string) []string {
